@@ -219,7 +219,7 @@ func firstWord(s string) string {
 }
 
 // Names used by observers.
-var ObsNames = []string{"a", "b", "zz", "", "_internal/x"}
+var ObsNames = []string{"a", "b", "zz", "", "_internal/x", " a", "a "}
 
 // Alphabet builds the C02 alphabet.
 func Alphabet(names []string, values []string, vers []uint32, bad bool) []Op {
@@ -239,6 +239,8 @@ func Alphabet(names []string, values []string, vers []uint32, bad bool) []Op {
 		out = append(out, Op{Kind: "delete", Name: n})
 	}
 	if bad {
+		// a name with surrounding whitespace is an ordinary, distinct name
+		out = append(out, Op{Kind: "put", Name: " a", Value: "w"}, Op{Kind: "activate", Name: " a", Ver: 1}, Op{Kind: "delete", Name: " a"})
 		for _, n := range []string{"", "_internal/x"} {
 			out = append(out, Op{Kind: "put", Name: n, Value: "x"}, Op{Kind: "activate", Name: n, Ver: 1}, Op{Kind: "delver", Name: n, Ver: 1}, Op{Kind: "delete", Name: n})
 		}
